@@ -8,7 +8,8 @@ _validate_association, on languages generated here as langspec dicts (<=3 asset 
 Reference (from the statement and the language specification only): the defenses of a type are those it declares or
 inherits, default 1 iff declared Enabled; a field of an association accepts exactly the declared type and its
 sub-types; at most `max` assets per field; no asset twice in a field; no second link of the same class between the
-same pair.
+same pair - whichever of the links of that class the model holds has the pair; every association of the language is
+exposed by exactly one generated class that has exactly its two fields.
 """
 from __future__ import annotations
 import itertools, json, random, sys, os
@@ -25,16 +26,29 @@ SCOPE = {
              "pairs; + 4000 seeded random languages over <=3 types (5 inheritance shapes, defenses Enabled / Disabled / no TTC / Exponential "
              "declared at any level, 0..3 associations incl. duplicate names, flipped duplicates, reflexive). Per language: "
              "every type instantiated, every defense read / set in and out of [0,1], every (field, asset type) pair tried, "
-             "max+1 assets, repeated asset, duplicate and overlapping link",
-    "thorough": "as quick with 40000 random languages",
+             "max+1 assets, repeated asset, duplicate and overlapping link; "
+             "+ SAME-SIGNATURE associations (same name AND same (left, right) types, told apart by their field names only): "
+             "ALL of 2 type shapes x 3 type pairs x 6 multiplicity combinations x {alone, + same name flipped / other types, "
+             "+ a third of the same signature, + another name}, and 1500 seeded random languages with 1-4 associations where "
+             "signatures may repeat. Per association class additionally: the model HOLDS 2 and then 3 links of the class "
+             "(disjoint pairs) and a duplicate / overlapping (left-side and right-side) link is attempted against EACH held "
+             "link (first and later ones)",
+    "thorough": "as quick with 40000 random languages and 15000 random languages with repeated signatures",
 }
 EXHAUSTIVE = {"quick": False, "thorough": False}
 RULE = ("case = one language description (types, parents, declared defenses, associations with multiplicities); non-trivial = "
-        "the language has a defense or an association; distinct = distinct description")
+        "the language has a defense or an association; distinct = distinct description. Associations of one language "
+        "may share their name, and also their name and both asset types (field names f<j>l / f<j>r are unique per "
+        "association). Models: per association class 1, 2 and 3 links held at the same time, duplicate attempts against "
+        "every held link")
 ASSUMPTIONS = [
     "languages are given as langspec dicts (mini.lang) to LanguageGraph / LanguageClassesFactory; well-formed: acyclic "
-    "inheritance, field names unique, same-named associations differ in their (left, right) types, a sub-type does not "
-    "redeclare an inherited defense",
+    "inheritance, field names unique (same-named associations differ in their (left, right) types or, same-signature "
+    "class, in their field names only), a sub-type does not redeclare an inherited defense",
+    "the generated association classes are the leaf entries of json_schema['definitions']['LanguageAssociation'] (an "
+    "entry with 'definitions' is a group of same-named associations, its sub-entries are the classes); for associations "
+    "with the same name and the same two types get_association_by_signature cannot tell them apart: it only has to "
+    "return one of their classes, the classes themselves are located by their field names",
     "an element put into a field counts as accepted only if the field then holds that very object (identity), not a copy",
     "wrong-type / over-maximum attempts use assets that are in the model and have no links yet (the library formats its "
     "error message with repr of the assets)",
@@ -75,6 +89,47 @@ def cases(tier, seed):
             seen.add((name, l, r))
             assocs.append([name, l, r, rnd.randrange(4), rnd.randrange(4)])
         yield {"parents": parents, "defenses": defenses, "assocs": assocs}
+    yield from cases_same_signature(tier, seed)
+
+
+def cases_same_signature(tier, seed):
+    """languages in which associations share name AND (left, right) types (own generator: the cases above stay)"""
+    menus = [[[], []], [["e", "d"], ["n"]]]
+    for parents in PARENTS[2]:
+        for (l, r) in ((0, 1), (0, 0), (1, 0)):
+            for (lm, rm, lm2, rm2) in ((2, 2, 2, 2), (2, 2, 2, 0), (0, 2, 2, 3), (1, 3, 0, 0), (3, 0, 2, 2), (2, 1, 3, 2)):
+                two = [["X", l, r, lm, rm], ["X", l, r, lm2, rm2]]
+                yield {"parents": parents, "defenses": menus[0], "assocs": two}
+                yield {"parents": parents, "defenses": menus[1], "assocs": two + [["X", r, l, rm, lm]] if l != r else two + [["X", 1 - l, 1 - l, 2, 2]]}
+                yield {"parents": parents, "defenses": menus[0], "assocs": [["X", 1, 1, 2, 2]] + two}
+                yield {"parents": parents, "defenses": menus[0], "assocs": two + [["X", l, r, rm, lm]]}
+                yield {"parents": parents, "defenses": menus[1], "assocs": [two[0], ["Y", l, r, 2, 2], two[1]]}
+    rnd = random.Random(seed * 65537 + 6)
+    for _ in range(1500 if tier == "quick" else 15000):
+        n = rnd.choice((1, 2, 2, 3, 3))
+        parents = rnd.choice(PARENTS[n])
+        defenses = [sorted(rnd.sample(["e", "d", "n", "x"], rnd.choice((0, 0, 1, 2)))) for _ in range(n)]
+        assocs = []
+        for _a in range(rnd.choice((1, 2, 2, 3, 3, 4))):
+            if assocs and rnd.random() < 0.5:
+                name, l, r = rnd.choice(assocs)[:3]              # the signature of an earlier association again
+                if rnd.random() < 0.25: l, r = r, l
+            else:
+                name, l, r = rnd.choice(("X", "X", "Y")), rnd.randrange(n), rnd.randrange(n)
+            assocs.append([name, l, r, rnd.randrange(4), rnd.randrange(4)])
+        yield {"parents": parents, "defenses": defenses, "assocs": assocs}
+
+
+def generated_association_classes(lcf):
+    """{class name: sorted field names} of the leaf entries of the association part of the generated schema"""
+    out = {}
+    for name, entry in lcf.json_schema["definitions"]["LanguageAssociation"]["definitions"].items():
+        if "definitions" in entry:
+            for sub, se in entry["definitions"].items():
+                out[str(sub)] = sorted(str(k) for k in se.get("properties", {}))
+        else:
+            out[str(name)] = sorted(str(k) for k in entry.get("properties", {}))
+    return out
 
 
 def build_spec(recipe):
@@ -187,8 +242,45 @@ def run_case(recipe):
     # ---- association classes ----
     sigs = [(name, l, rr) for (name, l, rr, _, _) in recipe["assocs"]]
     cnames = []
+    generated = generated_association_classes(lcf)
+    same_sig = any(sigs.count(sg) > 1 for sg in sigs)
+    r.check("C06.association-classes", len(generated) == len(sigs), FN_S,
+            "the language has %d associations, %d association classes are generated: %s" % (len(sigs), len(generated), sorted(generated)),
+            "count:%s" % ("same-signature" if same_sig else ("dup-name" if len({sg[0] for sg in sigs}) < len(sigs) else "single")))
+    by_fields = [[cn for cn, fs in sorted(generated.items()) if fs == sorted(["f%dl" % j, "f%dr" % j])] for j in range(len(sigs))]
     for j, (name, l, rr, lm, rm) in enumerate(recipe["assocs"]):
         dup = sum(1 for s in sigs if s[0] == name) > 1
+        ambiguous = sigs.count((name, l, rr)) > 1       # same name and same two types: only the fields tell them apart
+        kind = "same-signature" if ambiguous else ("dup-name" if dup else "single")
+        r.check("C06.association-classes", len(by_fields[j]) == 1, FN_S,
+                "association %s(%s.f%dl, %s.f%dr) is exposed by %d generated classes with exactly these fields (generated: %s)"
+                % (name, names[l], j, names[rr], j, len(by_fields[j]), sorted(generated.items())),
+                "by-fields:%s:%s" % ("missing" if not by_fields[j] else "several", kind))
+        if ambiguous:
+            group = sorted(c for i, sg in enumerate(sigs) if sg == (name, l, rr) for c in by_fields[i])
+            for (x, y, how) in ((l, rr, "by-signature"), (rr, l, "flipped")):
+                if how == "flipped" and l != rr and (name, rr, l) in sigs: continue
+                try:
+                    cg = lcf.get_association_by_signature(name, names[x], names[y])
+                except Exception as e:
+                    cg = L.exc_name(e)
+                r.check("C06.association-classes", cg in group, FN_G,
+                        "%s lookup %s(%s,%s) gives %s, the classes of the associations with that signature are %s" % (how, name, names[x], names[y], cg, group),
+                        "%s:same-signature" % how)
+            if len(by_fields[j]) != 1:
+                cnames.append(None); continue
+            try:
+                cn = by_fields[j][0]
+                s = getattr(lcf.ns, cn)()
+                fields = sorted(str(k) for k in m.get_association_field_names(s))
+            except Exception as e:
+                r.check("C06.association-classes", False, FN_S, "association class %s: %s %s" % (by_fields[j][0], L.exc_name(e), str(e)[:100]),
+                        "instantiate:%s:%s" % (L.exc_name(e), kind))
+                cnames.append(None); continue
+            cnames.append(cn)
+            r.check("C06.association-classes", fields == sorted(["f%dl" % j, "f%dr" % j]), FN_S,
+                    "class %s has fields %s, expected f%dl/f%dr" % (cn, fields, j, j), "fields:%s" % kind)
+            continue
         try:
             cn = lcf.get_association_by_signature(name, names[l], names[rr])
             cls = getattr(lcf.ns, cn)
@@ -201,6 +293,9 @@ def run_case(recipe):
         cnames.append(cn)
         r.check("C06.association-classes", fields == sorted(["f%dl" % j, "f%dr" % j]), FN_S,
                 "class %s has fields %s, expected f%dl/f%dr" % (cn, fields, j, j), "fields:%s" % ("dup-name" if dup else "single"))
+        r.check("C06.association-classes", by_fields[j] == [cn], FN_G,
+                "signature %s(%s,%s) gives class %s, the class with fields f%dl/f%dr is %s" % (name, names[l], names[rr], cn, j, j, by_fields[j]),
+                "by-signature-vs-fields:%s" % kind)
         if (name, rr, l) not in sigs or l == rr:
             try:
                 cf = lcf.get_association_by_signature(name, names[rr], names[l])
@@ -337,6 +432,47 @@ def run_case(recipe):
                 if e4 is None: undo(s4)
             else:
                 r.check("C06.no-repeat", err4 != "COPIED", FN_S, "repeated asset was copied on assignment", "repeat:copied")
+        # ---- the model holds 2, then 3 links of this class (disjoint pairs; pair 0 is `s`): a link that exists in
+        #      ANY of them is refused, be it the first or a later one of its class
+        pairs = [(0, 1), (1, 2), (2, 0)]            # (index into objs[l], index into objs[rr])
+        held = [s]
+        for k in (1, 2):
+            sk, errk = try_fill(cn, j, [objs[l][pairs[k][0]]], [objs[rr][pairs[k][1]]])
+            if errk is not None: break
+            before_k = snapshot()
+            try:
+                m.add_association(sk); ek = None
+            except Exception as e:
+                ek = e
+            if not r.check("C06.valid-link", ek is None and snapshot() != before_k, "maltoolbox.model:Model.add_association",
+                           "valid %s link between a pair no held link has refused (the model holds %d): %s"
+                           % (cn, len(held), L.exc_name(ek) if ek else "no effect"), "refused:further-link"):
+                if ek is None: undo(sk)
+                break
+            held.append(sk)
+            now = snapshot()
+            for i in range(len(held)):
+                pos = "first-of-several" if i == 0 else "later-link"
+                ai, bi = objs[l][pairs[i][0]], objs[rr][pairs[i][1]]
+                attempts = [("same-pair", [ai], [bi])]
+                if MULTS[lm][1] is None:
+                    attempts.append(("overlap-left", [objs[l][(pairs[i][0] + 1) % 3], ai], [bi]))
+                if MULTS[rm][1] is None:
+                    attempts.append(("overlap-right", [ai], [bi, objs[rr][(pairs[i][1] + 1) % 3]]))
+                for (how, lo, ro) in attempts:
+                    d, errd = try_fill(cn, j, lo, ro)
+                    if errd is not None: continue
+                    try:
+                        m.add_association(d); ed = None
+                    except Exception as e:
+                        ed = e
+                    r.check("C06.no-duplicate-link", isinstance(ed, DuplicateModelAssociationError) and snapshot() == now, FN_V,
+                            "%s link (%s) repeating the pair of held link %d of %d of its class: %s"
+                            % (cn, how, i + 1, len(held), "accepted" if ed is None else L.exc_name(ed)),
+                            "%s:%s:%s" % (how, pos, "accepted" if ed is None else L.exc_name(ed)))
+                    if ed is None: undo(d)
+        for sk in reversed(held[1:]):
+            m.remove_association(sk)
         m.remove_association(s)
     for cl in ("asset-types", "defenses", "defense-range", "association-classes", "field-types", "multiplicity", "valid-link",
                "no-duplicate-link", "no-repeat"):
